@@ -787,6 +787,23 @@ def replay(ctx, rep):
     scratch = os.path.join(common.BUILD, 'scratch')
     os.makedirs(scratch, exist_ok=True)
     clause = rep.get('signature', {}).get('clause')
+    if 'history' in case:
+        # idempotence on a resource with a history: re-run the history scenarios of this model/options
+        class Collect:
+            fails = []
+
+            def fail(self, signature, what, case):
+                self.fails.append((signature, what))
+        col = Collect()
+        stats = {'saves': 0, 'history': {}, 'history_skipped': {}, 'distinct': set()}
+        for _ in range(8):      # the planted position is drawn at random
+            check_histories(col, spec, fmt, opts, ctx.rng, stats, scratch)
+        want = rep.get('signature', {}).get('fault')
+        hits = [w for sg, w in col.fails if sg.get('fault') == want]
+        for w in hits[:2]:
+            print(w)
+        print('REPRODUCED' if hits else 'not reproduced', f'(clause {clause}, {want})')
+        return 1 if hits else 0
     with tempfile.TemporaryDirectory(dir=scratch) as d:
         b = build(spec, d, fmt, opts['use_uuid'], opts.get('indent'))
         target = b.path if opts['target'] == 'uri' else os.path.join(d, 'elsewhere.' + fmt)
